@@ -62,6 +62,36 @@ def gen_cases(tier, seed):
         base["route"] = ["list", "dir", "glob", "merge", "merge_pf", "list_root"][int(rng.integers(0, 6))]
         base["mismatch"] = [None, None, None, None, "renamed", "dtype", "extra"][int(rng.integers(0, 7))] if k >= 2 else None
         cases.append(base)
+    # --- footer-length lattice: the footers of files 2..k are fetched together with a tail of int(1.4 * first footer) bytes and
+    #     re-fetched when that is too small: the third file's footer length is stepped across that boundary
+    k = 0
+    for d in (range(-12, 6) if tier == "quick" else range(-40, 24)):
+        for route in (["list", "dir"] if tier == "quick" else ["list", "dir", "glob", "list_root"]):
+            k += 1
+            fr = {"seed": 1400 + k, "nrows": 6, "cols": [{"name": "rid", "kind": "rid"}, {"name": "v0", "kind": "int64", "nulls": "none"},
+                                                         {"name": "v1", "kind": "str", "nulls": "none"}], "index": None}
+            files = []
+            for j in range(4):
+                f = copy.deepcopy(fr)
+                f["seed"] += 100 * j
+                f["rid0"] = 6 * j
+                files.append({"frame": f, "compression": None, "rel": "f%02d.parquet" % j})
+            cases.append({"id": "FL/%d/%s" % (d, route), "frame": fr, "opts": {"has_nulls": True, "row_group_offsets": None}, "files": files,
+                          "layout": "flat", "route": route, "mismatch": None, "pad": {"file": 2, "delta": d}})
+    # --- category counts that differ between files (a growing vocabulary: each file's labels are a prefix of the next one's)
+    for counts in ([(3, 150), (9, 150), (90, 140), (100, 150), (127, 128), (5, 40, 300), (99, 100, 130)] if tier == "quick" else
+                   [(a, b) for a in (1, 2, 3, 9, 10, 90, 99, 100, 127, 128) for b in (128, 129, 140, 150, 256, 257, 1000) if a < b] + [(5, 40, 300), (99, 100, 130)]):
+        for route in ("list", "dir", "merge", "merge_pf"):
+            k += 1
+            files = []
+            rid0 = 0
+            for j, nc in enumerate(counts):
+                f = {"seed": 1700 + k * 7 + j, "nrows": 80 + 3 * nc, "rid0": rid0, "index": None,
+                     "cols": [{"name": "rid", "kind": "rid"}, {"name": "c", "kind": "cat_many", "nulls": "none", "ncat": nc}, {"name": "v", "kind": "float64", "nulls": "p20"}]}
+                rid0 += f["nrows"]
+                files.append({"frame": f, "compression": None, "rel": "f%02d.parquet" % j})
+            cases.append({"id": "CT/%s/%s" % ("-".join(map(str, counts)), route), "frame": files[0]["frame"], "opts": {"has_nulls": True, "row_group_offsets": None},
+                          "files": files, "layout": "flat", "route": route, "mismatch": None, "growing_vocabulary": True})
     return cases
 
 
@@ -112,6 +142,24 @@ def run_case(case):
                         label_change = True
             frames.append(df)
             paths.append(p)
+        if case.get("pad"):
+            import struct
+            def foot_len(p_):
+                with open(p_, "rb") as fh:
+                    fh.seek(-8, 2)
+                    return struct.unpack("<I", fh.read(4))[0]
+            j = case["pad"]["file"]
+            target = int(1.4 * foot_len(paths[0])) + case["pad"]["delta"]
+            n_pad, hit = 0, False
+            for _ in range(6):
+                fastparquet.write(paths[j], frames[j], compression=case["files"][j]["compression"], custom_metadata={"pad": "x" * n_pad}, **C.write_kwargs(kw))
+                cur = foot_len(paths[j])
+                if cur == target:
+                    hit = True
+                    break
+                n_pad = max(0, n_pad + (target - cur))
+            counters["footer_lattice_points" if hit else "footer_lattice_missed"] = 1
+            counters["footer_delta:%d" % case["pad"]["delta"]] = int(hit)
         k = len(paths)
         route = case["route"]
         layout = case["layout"]
@@ -241,6 +289,8 @@ def run_case(case):
                         counters["partition_values_checked"] = counters.get("partition_values_checked", 0) + 1
             counters["cells_compared"] = counters.get("cells_compared", 0) + len(grids) * len(got.columns)
         counters["opens_compared"] = 1
+        if case.get("growing_vocabulary"):
+            counters["growing_vocabulary_opens"] = 1
         counters["route:" + route] = 1
         counters["footer_path:" + ("new" if (k >= 3 and route in ("list", "list_root", "dir", "glob")) else "legacy")] = 1
         res["outcome"] = "ok"
@@ -254,4 +304,5 @@ def run_case(case):
 
 def required(tier):
     return {"opens_compared": 120, "route:list": 15, "route:dir": 15, "route:glob": 15, "route:merge": 15, "route:merge_pf": 15,
-            "footer_path:new": 30, "footer_path:legacy": 30, "mismatch_rejected": 20, "partition_values_checked": 100}
+            "footer_path:new": 30, "footer_path:legacy": 30, "mismatch_rejected": 20, "partition_values_checked": 100, "footer_lattice_points": 30,
+            "growing_vocabulary_opens": 20}
